@@ -558,6 +558,16 @@ impl Display for ClientImplState {
     }
 }
 
+// `start + duration`; when that point in time cannot be represented (a timeout or wait close to Duration::MAX means
+// "practically never" to the caller) a point a century away stands in for it instead of panicking.
+pub(crate) fn add_duration_saturating(start: Instant, duration: Duration) -> Instant {
+    const FAR_FUTURE : Duration = Duration::from_secs(100 * 365 * 24 * 60 * 60);
+
+    start.checked_add(duration)
+        .or_else(|| start.checked_add(FAR_FUTURE))
+        .unwrap_or(start)
+}
+
 pub(crate) type CallbackSpawnerFunction = Box<dyn Fn(Arc<ClientEvent>, Arc<ClientEventListenerCallback>) + Send + Sync>;
 
 pub(crate) struct MqttClientImpl {
@@ -982,7 +992,7 @@ impl MqttClientImpl {
         debug!("client impl transition_to_state - old state: {}, new_state: {}", old_state, new_state);
 
         if new_state == ClientImplState::Connected {
-            let establishment_timeout = self.last_start_connect_time.unwrap() + self.connect_timeout;
+            let establishment_timeout = add_duration_saturating(self.last_start_connect_time.unwrap(), self.connect_timeout);
             let mut connection_opened_context = NetworkEventContext {
                 event: NetworkEvent::ConnectionOpened(ConnectionOpenedContext{
                     establishment_timeout,
